@@ -168,6 +168,7 @@ VIOLATIONS = (
     "name_type", "name_field", "name_arg", "name_enum_value", "name_directive", "name_directive_arg", "name_input_field",
     # (appended) violations of the INTERFACE's own definition - they combine with the implementation violations of the object that implements it
     "iface_dup_field", "iface_own_field_name", "iface_own_input_in_output", "iface_own_arg_output",
+    "implements_object", "implements_union", "implements_scalar",
 )
 
 
@@ -183,6 +184,7 @@ GROUPS = {
     "dup_field": "A.fields", "input_in_output": "A.fields", "name_field": "A.fields", "name_type": "A",
     "dup_arg": "A.c.args", "name_arg": "A.c.args", "output_in_arg": "A.c.args",
     "name_directive": "directive", "name_directive_arg": "directive", "output_in_directive_arg": "directive",
+    "implements_object": "A.ifaces", "implements_union": "A.ifaces", "implements_scalar": "A.ifaces",
     "iface_dup_field": "Node.own", "iface_own_field_name": "Node.own", "iface_own_input_in_output": "Node.own", "iface_own_arg_output": "Node.own",
 }
 
@@ -243,6 +245,13 @@ def build_schema_with(violations, depth, badname, order):
         inp_fields.append(InputField("o", wrap(enum if False else iface, d)))
         inp = InputObjectType("In", inp_fields)
     ifaces = [iface, iface] if "dup_interface" in v else [iface]
+    other_obj = ObjectType("NotAnInterface", [Field("id", NonNullType(ID))])
+    if "implements_object" in v:
+        ifaces.append(other_obj)
+    if "implements_union" in v:
+        ifaces.append(UnionType("NotAnInterfaceEither", [other_obj]))
+    if "implements_scalar" in v:
+        ifaces.append(String)
     a = ObjectType(badname if "name_type" in v else "A", a_fields, interfaces=ifaces)
     b = ObjectType("B", [] if "empty_object" in v else [Field("b", Int)])
     members = [a, b]
